@@ -33,6 +33,9 @@ def cases(res):
     for p in (7, 15):
         add(34, {"intra_period_length": p, "intra_refresh_type": 2, "enable_overlays": 1, "tf_level": 1, "hierarchical_levels": 3})
         add(34, {"intra_period_length": p, "intra_refresh_type": 2, "look_ahead_distance": 17, "enable_tpl_la": 1})
+    # the same placement rules under rate control (the intra-period counter is advanced on a different path when a rate-control mode is on)
+    for rc, p, rt in ((1, 9, 2), (2, 7, 2), (1, 5, 1)) + (() if res.tier == "quick" else ((1, 16, 2), (2, 15, 1), (1, 31, 2), (2, 3, 2))):
+        add(45 if p < 16 else 100, {"intra_period_length": p, "intra_refresh_type": rt, "rate_control_mode": rc, "target_bit_rate": 300000})
     return out
 
 
